@@ -97,6 +97,7 @@ def instances(ck):
         g44 = [g for g in g4 if g[0] == 4]
         pairs += [(rng.choice(g44), rng.choice(g44)) for _ in range(40)]
         pairs += [(a, b) for a in rng.sample(g44, 6) for b in rng.sample(g3, 6)]
+    pairs = [p for k, p in enumerate(pairs) if p not in pairs[:k]]
     for (n1, e1), (n2, e2) in pairs:
         add("iso-%d-%s--%d-%s" % (n1, gen.gid(e1), n2, gen.gid(e2)), "iso", None,
             lambda c, n1=n1, e1=e1, n2=n2, e2=e2: cnfgen.GraphIsomorphism(G(n1, e1), G(n2, e2), formula_class=c),
